@@ -21,8 +21,8 @@ class BaseStyle:
                 ok_kw["hex_chunk_size"] = v
                 ok_kw["base64_chunk_size"] = v
             elif k == "separator":
-                ok_kw["hex_separator"] = v
-                ok_kw["base64_separator"] = v
+                ok_kw["hex_chunk_separator"] = v
+                ok_kw["base64_chunk_separator"] = v
             elif hasattr(cls, k):
                 ok_kw[k] = v
         return cls(**ok_kw)
